@@ -129,6 +129,8 @@ func ptreq(pk ...string) func(c *Ctx) { return func(c *Ctx) { PointerEquality(c,
 
 func appendRule(pk ...string) func(c *Ctx) { return func(c *Ctx) { AppendClobber(c, "default", pk) } }
 
+func nilEmpty(pk ...string) func(c *Ctx) { return func(c *Ctx) { NilEmpty(c, "default", pk) } }
+
 func shiftRule(pk ...string) func(c *Ctx) { return func(c *Ctx) { ShiftWidth(c, "default", pk) } }
 
 func loopShare(pk ...string) func(c *Ctx) { return func(c *Ctx) { LoopShare(c, "default", pk) } }
@@ -171,9 +173,9 @@ func init() {
 	extraRules["__ro_c08"] = roTargetsFor("sign/eddsa.", "sign/schnorr.", "sign/anon.Verify", "sign/anon.Sign")
 	// ciphertexts, keys and messages are inputs only: a decryptor that writes into its ciphertext can
 	// make its own integrity comparison vacuous (anon header) or break a second decryption
-	extraRules["C16"] = both(shiftRule("encrypt", "sign/anon"), appendRule("encrypt", "sign/anon", "util/key"), roTargetsFor("encrypt/ecies.", "encrypt/ibe.", "sign/anon.Encrypt", "sign/anon.Decrypt"),
+	extraRules["C16"] = both(nilEmpty("encrypt", "sign/anon", "util/key"), shiftRule("encrypt", "sign/anon"), appendRule("encrypt", "sign/anon", "util/key"), roTargetsFor("encrypt/ecies.", "encrypt/ibe.", "sign/anon.Encrypt", "sign/anon.Decrypt"),
 		func(c *Ctx) { LenGuard(c, "default", []string{"encrypt", "sign/anon"}) }, fresh("encrypt/", "sign/anon."))
-	extraRules["C08"] = both(appendRule("sign/schnorr", "sign/eddsa", "sign/anon"), func(c *Ctx) { CheckMustWrite(c, "C08") }, stale("sign/schnorr", "sign/eddsa", "sign/anon"), entropyRule("C08"),
+	extraRules["C08"] = both(nilEmpty("sign/schnorr", "sign/eddsa", "sign/anon"), appendRule("sign/schnorr", "sign/eddsa", "sign/anon"), func(c *Ctx) { CheckMustWrite(c, "C08") }, stale("sign/schnorr", "sign/eddsa", "sign/anon"), entropyRule("C08"),
 		func(c *Ctx) { extraRules["__ro_c08"](c) }, fresh("sign/eddsa.", "sign/schnorr.", "sign/anon."), ptreq("sign/eddsa", "sign/schnorr", "sign/anon"))
 	extraRules["__fresh_c03"] = fresh("MarshalBinary", "Clone", ".Data", ".String", "util/encoding.")
 	extraRules["C02"] = both(func(c *Ctx) { CheckMustWrite(c, "C02") }, shiftRule("group/edwards25519", "group/mod", "compatible", "pairing/bls12381", "util/random"), entropyRule("C02"), func(c *Ctx) { ScalarModulus(c, "default") }, func(c *Ctx) {
@@ -182,10 +184,15 @@ func init() {
 	}, func(c *Ctx) {
 		for _, cfg := range []string{"default", "ct"} {
 			cfgTag(c, cfg, func() { ReduceDiscipline(c, cfg) })
+			// "exactly the corresponding operation" also when the receiver is one of the operands
+			// (x.Sub(a, x) in the constant-time build): the aliasing scenarios of the scalar types
+			if p := c.Prog(cfg); p != nil {
+				cfgTag(c, cfg, func() { EFXAliasKinds(c, cfg, efx.NewAnalyzer(p), "scalar") })
+			}
 		}
 	})
-	extraRules["C17"] = both(entropyRule("C17"), shiftRule("group", "pairing"))
-	extraRules["C19"] = both(shiftRule("xof", "util/random"), appendRule("xof", "util/random"), entropyRule("C19"), func(c *Ctx) { CheckMustWrite(c, "C19") }, func(c *Ctx) {
+	extraRules["C17"] = both(nilEmpty("group", "pairing"), entropyRule("C17"), shiftRule("group", "pairing"))
+	extraRules["C19"] = both(nilEmpty("xof", "util/random"), shiftRule("xof", "util/random"), appendRule("xof", "util/random"), entropyRule("C19"), func(c *Ctx) { CheckMustWrite(c, "C19") }, func(c *Ctx) {
 		// XOF clones share no mutable state with their original (EFX-INDEP) and Clone writes nothing
 		p := c.Prog("default")
 		if p == nil {
@@ -224,6 +231,7 @@ func init() {
 	extraRules["C09"] = func(c *Ctx) {
 		stale("sign/bls", "sign/tbls", "sign/bdn", "sign/cosi")(c)
 		appendRule("sign/bls", "sign/tbls", "sign/bdn", "sign/cosi", "share")(c)
+		nilEmpty("sign/bls", "sign/tbls", "sign/bdn", "sign/cosi")(c)
 		PairedUpdates(c, "default")
 		CheckMustWrite(c, "C09")
 		AccGate(c, "default", "C09")
